@@ -583,6 +583,8 @@ def State.init : State α :=
     nextSense := false, failed := false }
 
 def State.lvl (s : State α) : Nat := s.level.getD 0
+/-- the per-level data of level `k` -/
+def State.lev (s : State α) (k : Nat) : LevelState α := s.levels.getD k default
 def State.isOnBoundary (s : State α) : Bool := s.surfaceLevel.isSome
 def State.hasNextStep (s : State α) : Bool :=
   match s.nextStep with
@@ -632,7 +634,7 @@ def findImplLoopG (limited : Nat → Option α → Isect α) : List Nat → Isec
 
 /-- the per-level limited search of the current state -/
 def levelLimited (g : Geo α) (s : State α) (lev : Nat) (max : Option α) : Isect α :=
-  g.intersectMax (s.levels.getD lev default).uid (s.localState lev) max
+  g.intersectMax (s.lev lev).uid (s.localState lev) max
 
 def findImplLoop (g : Geo α) (s : State α) : List Nat → Isect α → Nat → Isect α × Nat :=
   findImplLoopG (levelLimited g s)
@@ -713,7 +715,7 @@ def localNormal (g : Geo α) (s : State α) (sl : Nat) : Vec3 α :=
     with the global directions. -/
 def setDirFlips (g : Geo α) (s : State α) (newdir : Vec3 α) (sl : Nat) : Bool :=
   let normal := rotateUpFrom g s sl (localNormal g s sl)
-  let old := (s.levels.getD 0 default).dir
+  let old := (s.lev 0).dir
   (Num.ge (Vec3.dot normal newdir) (Num.ofNat 0)) != (Num.ge (Vec3.dot normal old) (Num.ofNat 0))
 
 /-- the loop as it was written BEFORE the repair: `range<int>(level).step(-1)`, i.e. the
@@ -721,7 +723,7 @@ def setDirFlips (g : Geo α) (s : State α) (newdir : Vec3 α) (sl : Nat) : Bool
     `surface_level` (kept to state and prove the defect: Props/C03 `setDir_allLevels_wrong`) -/
 def setDirFlipsAllLevels (g : Geo α) (s : State α) (newdir : Vec3 α) (sl : Nat) : Bool :=
   let normal := rotateUpFrom g s s.lvl (localNormal g s sl)
-  let old := (s.levels.getD 0 default).dir
+  let old := (s.lev 0).dir
   (Num.ge (Vec3.dot normal newdir) (Num.ofNat 0)) != (Num.ge (Vec3.dot normal old) (Num.ofNat 0))
 
 /-- `set_dir` -/
